@@ -32,7 +32,7 @@ cp "$OUT/patch.diff" /verif/seeded/$ID/patch.diff
 cp "$DEMO" /verif/seeded/$ID/
 [ -f "$OUT/meta.json" ] && cp "$OUT/meta.json" /verif/seeded/$ID/meta.agent.json
 cd /verif
-for tier in quick thorough; do
+for tier in ${VERIFY_TIERS:-quick thorough}; do
   t0=$(date +%s)
   VP_REPO="$S/changed" ./check "$PROP" --tier $tier > "$S/check.$tier.log" 2>&1; RC=$?
   t1=$(date +%s)
